@@ -2,31 +2,53 @@ ID = "C20"
 PROPS_FILE = "props/C20.v"
 COQ_TARGETS = ["props/C20.vo", "judge/J20.vo", "model/Pack.vo"]
 JUDGE = ("judge.J20", "J20.judge")
-REPO_BINS = [("to_nsq", "apps/to_nsq", "")]
-RULE = ("generated stdin inputs (0-8 records; lengths clustered at 0/1/2-4/1-40/4094-4098 = bufio boundary; "
+JUDGE_IMPORTS = ["From NSQV Require Import model.RelayAck."]
+REPO_BINS = [("to_nsq", "apps/to_nsq", ""), ("nsq_to_nsq", "apps/nsq_to_nsq", ""), ("nsq_to_http", "apps/nsq_to_http", "")]
+RULE = ("(1) to_nsq: generated stdin inputs (0-8 records; lengths clustered at 0/1/2-4/1-40/4094-4098 = bufio boundary; "
         "delimiters \\n , space 0xff a \\r 0x01; final record terminated or not; empty records; raw bytes containing the delimiter) "
-        "fed to the real to_nsq binary with 1-3 recording destinations; a case is non-trivial when at least one record was published; "
-        "distinct = distinct (input, delimiter, destinations, observed output) terms")
+        "fed to the real to_nsq binary with 1-3 recording destinations; non-trivial when at least one record was published. "
+        "(2) nsq_to_nsq / nsq_to_http: the real binaries against a real in-process source nsqd (8-47 distinct bodies incl. binary and "
+        "URL-hostile ones) and 1-3 scripted stub destinations sharing one global request log: nsq_to_nsq modes round-robin / hostpool / "
+        "epsilon-greedy with answers OK / E_PUB_FAILED / close and refused first connections, optional --require-json-field; nsq_to_http POST and GET "
+        "in modes round-robin / hostpool / epsilon-greedy / all with answers 200 / 204 / 301 / 400 / 500 / close, optional --sample 0.5; "
+        "max-in-flight 1/5/200; requeue delay shortened by -consumer-opt (max_attempts left at the library default); the run waits until the source "
+        "channel is empty (or 45 s), stops the tool and drains what is still owed; non-trivial when at least one request reached a destination; "
+        "a run in which a never-accepted body was rejected >= max_attempts times and is no longer owed is named kf-max-attempts-* (known finding K7); "
+        "two such witnesses are part of every run. distinct = distinct case terms.")
 TRUSTED = [
-    "modelled, not verified: bufio.Reader.ReadBytes (as: bytes up to and including the delimiter, or the rest with EOF), go-nsq Producer.Publish (as: delivers the body to the destination in call order), process start-up/flag parsing",
-    "recording destination = /verif/harness/lib/stubnsqd.go (a minimal nsqd TCP endpoint written for this harness)",
+    "modelled, not verified: bufio.Reader.ReadBytes (as: bytes up to and including the delimiter, or the rest with EOF), go-nsq Producer.Publish/PublishAsync (delivers the body, reports the destination's answer in the transaction), go-nsq Consumer handler loop (handler error => REQ, nil => FIN unless auto-response disabled, attempts > max_attempts => FIN without calling the handler), net/http client (status code as sent; a closed connection is an error), hostpool (any choice sequence), process start-up/flag parsing",
+    "recording destinations = /verif/harness/lib/stubnsqd.go and /verif/harness/cmd/relaydrive/ackstub.go (minimal nsqd TCP / HTTP endpoints written for this harness, scripted answers, one mutex-ordered request log)",
+    "the source side is a real in-process nsqd; redelivery of requeued messages is property C01 (assumed here, modelled as a FIFO of owed messages)",
+    "coq/gen/RelayCfg.v (gotables relaycfg.go): go-nsq version from go.mod, Config.MaxAttempts default tag read from the module cache, whether the tools assign MaxAttempts, the text of the two HTTP status tests",
 ]
 ASSUMPTIONS = [
-    "nsq_to_nsq / nsq_to_http acknowledgement logic is covered by the C20 handler model (see DESIGN.md C20); go-nsq and hostpool internals are not modelled",
+    "nsqd redelivers a requeued message (C01); go-nsq and hostpool internals are not modelled beyond the handler-loop contract stated in TRUSTED (C20 'partial')",
 ]
 
 
 def drivers():
     def args(tier, seed, scale):
-        n = (300 if tier == "quick" else 3000) * scale
-        return ["-n", str(n), "-seed", str(seed)]
-    return [{"driver": "relaydrive", "args": args, "replay_args": lambda tier: []}]
+        n = (220 if tier == "quick" else 3000) * scale
+        nack = (14 if tier == "quick" else 150) * (1 if scale == 1 else 4)
+        return ["-n", str(n), "-nack", str(nack), "-seed", str(seed)]
+    return [{"driver": "relaydrive", "args": args, "replay_args": lambda tier: [], "timeout": 1500}]
 
-LEVEL_TEXT = ("Machine-checked proof (Coq 8.16.1) that the to_nsq reader loop, for every input byte string and every delimiter, "
-              "publishes exactly the non-empty delimiter-separated records in order to every destination (final unterminated record included), "
-              "over an executable Gallina model tied to the source by differential correspondence: the real to_nsq binary is run on generated "
-              "stdin streams against recording destinations and the model is evaluated on the same inputs inside coqc.")
-LEVEL_NOTE = ("Trusted: Coq kernel + vm_compute; the hand-written model of readAndPublish (bufio.ReadBytes, go-nsq Publish modelled); the stub destination; "
-              "the correspondence is sampled (generated inputs), the theorem is not. nsq_to_nsq/nsq_to_http acknowledgement half: see DESIGN.md C20.")
-TECHNIQUE = "Coq proof by induction over the input + differential correspondence (real binary vs vm_compute of the model)"
+SEARCH_SCALE = 8
+LEVEL_TEXT = ("Machine-checked proof (Coq 8.16.1), two halves. (1) to_nsq: for every input byte string and every delimiter the reader loop "
+              "publishes exactly the non-empty delimiter-separated records in order to every destination (final unterminated record included). "
+              "(2) nsq_to_nsq / nsq_to_http: over an executable model of PublishHandler.HandleMessage + responder() (publish result => Finish | Requeue; "
+              "JSON filter / sampling drops only when such a flag is set; POST accepts 2xx, GET accepts 200, the two status tests regenerated from the source) "
+              "composed with an arbitrary destination behaviour stream, arbitrary hostpool choices and a source queue that redelivers requeued messages: "
+              "with max_attempts = 0 a message is finished only after requests carrying exactly its body were all accepted and is requeued otherwise "
+              "(C20_finish_only_on_success), and if the destination accepts from some point on every message is delivered at least once after N+|msgs| "
+              "deliveries (C20_eventual). With the configuration the tools really use (go-nsq's default max_attempts = 5, read from the vendored source; "
+              "neither tool overrides it) the statement is REFUTED (C20_finish_only_on_success_refuted, known finding K7: after 5 rejections the client "
+              "library finishes the message undelivered) and proved outside that region (C20_finish_only_on_success_holds_outside: no message requeued "
+              "max_attempts times; C20_giveup_needs_failures). Tied to the code by differential correspondence: the real binaries against recording / "
+              "scripted destinations and a real source nsqd, judged inside coqc.")
+LEVEL_NOTE = ("Trusted: Coq kernel + vm_compute; the hand-written models; go-nsq's handler-loop contract, net/http, hostpool ('partial'); the stub destinations; "
+              "correspondence is sampled, the theorems are not. KNOWN FINDING K7 is replayed on every run (cases kf-max-attempts-*): the property does not hold "
+              "for a destination that rejects one message max_attempts (5) times in a row. The model is sequential (one delivery at a time); concurrency of "
+              "handlers/responders is not modelled. JSON filtering is an abstract function (encoding/json not modelled).")
+TECHNIQUE = "Coq proofs by induction over the input / over delivery blocks with a potential-function termination argument + differential correspondence (real binaries vs vm_compute of the models)"
 DESIGN_REF = "DESIGN.md §5 C20"
